@@ -56,6 +56,19 @@ R12.5 the schema location and the require flag handed to the generator come from
 					schemaNil = &p.Atoms[i]
 				}
 			}
+			if schemaNil == nil && validateNilTolerant(ip) {
+				// validateSchema itself answers a nil schema with "nothing to validate": calling it
+				// unconditionally, successfully, before Execute is the same decision
+				okCall := false
+				for _, a := range p.Atoms {
+					if a.Err && a.Val && strings.HasPrefix(a.Expr, "internal.validateSchema(") && a.Step <= ex[0].Step {
+						okCall = true
+					}
+				}
+				if okCall {
+					continue
+				}
+			}
 			if schemaNil == nil {
 				okAll = false
 				c.Fail("R12.1", "Generate|execute-without-schema-test", r.Pos(ex[0].Pos), "the template is executed on a path that never looked at the schema returned by getTemplate")
@@ -354,7 +367,8 @@ func ruleValidateSchema(c *Ctx, r *Repo, rule string) {
 		okNil, okFile := false, true
 		for _, p := range paths {
 			if v, has := p.atom("ARG2 == nil"); has && v {
-				okNil = p.Exit == "return" && p.Ret[0] != "nil"
+				// a nil schema is rejected, or answered with "nothing to validate"; either way it is not used
+				okNil = p.Exit == "return" && len(p.CallsTo("VerifyJSONSchema")) == 0
 				continue
 			}
 			// every other path must validate the file-level data first
@@ -369,7 +383,13 @@ func ruleValidateSchema(c *Ctx, r *Repo, rule string) {
 					c.Fail(rule, "validateSchema|failure-ignored", r.Pos(a.Pos), "a validation failure does not make validateSchema return an error")
 				}
 			}
-			if p.Exit == "return" && p.Ret[0] == "nil" && hasStep(p, "loop") != 1 {
+			searches := 0 // slices.IndexFunc / ContainsFunc over the interfaces: the loop in library form
+			for _, call := range p.Calls {
+				if (call.Name == "slices.IndexFunc" || call.Name == "slices.ContainsFunc") && len(call.Args) == 2 && call.Args[0] == "ARG1.Interfaces" {
+					searches++
+				}
+			}
+			if p.Exit == "return" && p.Ret[0] == "nil" && hasStep(p, "loop")+searches != 1 {
 				okFile = false
 				c.Fail(rule, "validateSchema|no-interface-loop", r.Pos(fd.Pos()), "validateSchema reports success without looping over the interfaces")
 			}
@@ -379,7 +399,73 @@ func ruleValidateSchema(c *Ctx, r *Repo, rule string) {
 			c.OK(rule, "validateSchema|file-level", r.Pos(fd.Pos()), "file-level template-data validated; failures returned")
 		}
 		rs := rangeOverC(ip, fd, "ARG1.Interfaces")
-		if rs == nil {
+		var search *ast.CallExpr
+		ast.Inspect(fd.Body, func(n ast.Node) bool {
+			if call, ok := n.(*ast.CallExpr); ok && len(call.Args) == 2 {
+				if cn := calleeName(info, call); (cn == "slices.IndexFunc" || cn == "slices.ContainsFunc") && newFuncCanon(info, fd).E(call.Args[0]) == "ARG1.Interfaces" {
+					search = call
+				}
+			}
+			return true
+		})
+		if fl, isLit := func() (*ast.FuncLit, bool) {
+			if search == nil {
+				return nil, false
+			}
+			fl, ok := search.Args[1].(*ast.FuncLit)
+			return fl, ok && fl.Type.Params.NumFields() == 1 && len(fl.Type.Params.List[0].Names) == 1
+		}(); rs == nil && isLit {
+			// the search stops at the first interface whose own template-data fails validation, and a hit
+			// makes validateSchema return an error
+			d := newDT(info)
+			d.boolReturns = true
+			start := seedEnv(d, fd)
+			start.env[info.Defs[fl.Type.Params.List[0].Names[0]]] = "ELEM"
+			d.paths = nil
+			d.stmts(start, fl.Body.List, func(p *dtPath) { d.finish(p, "end") })
+			ok := len(d.paths) > 0
+			for _, p := range d.paths {
+				calls := p.CallsTo("template.TemplateData).VerifyJSONSchema")
+				if len(calls) != 1 || calls[0].Recv != "ELEM.TemplateData" || len(calls[0].Args) != 2 || calls[0].Args[1] != "ARG2" {
+					ok = false
+					c.Fail(rule, "validateSchema|interface-data", r.Pos(fl.Pos()), "the search predicate does not validate exactly that interface's own template-data against the schema: "+p.String())
+					continue
+				}
+				failed, tested := false, false
+				for _, a := range p.Atoms {
+					if a.Err {
+						failed, tested = !a.Val, true
+					}
+				}
+				if !tested || p.Exit != "return" || len(p.Ret) != 1 || (p.Ret[0] == "true") != failed {
+					ok = false
+					c.Fail(rule, "validateSchema|interface-failure-ignored", r.Pos(fl.Pos()), "the search predicate does not report exactly the interfaces whose validation failed: "+p.String())
+				}
+			}
+			// a hit is an error
+			sc := newFuncCanon(info, fd).E(search)
+			for _, p := range enumOnce(info, fd) {
+				hit, known := false, false
+				for _, a := range p.Atoms {
+					switch a.Expr {
+					case sc + " >= 0", sc + " > -1", sc:
+						hit, known = a.Val, true
+					case sc + " < 0", sc + " == -1":
+						hit, known = !a.Val, true
+					}
+				}
+				if len(p.CallsTo("slices.IndexFunc"))+len(p.CallsTo("slices.ContainsFunc")) == 0 {
+					continue
+				}
+				if !known || hit != (p.Exit == "return" && p.Ret[0] != "nil") {
+					ok = false
+					c.Fail(rule, "validateSchema|interface-failure-ignored", r.Pos(search.Pos()), "a failing interface found by the search does not make validateSchema return an error (or the result of the search is not examined): "+p.String())
+				}
+			}
+			if ok {
+				c.OK(rule, "validateSchema|interface-level", r.Pos(search.Pos()), "every interface's own template-data is validated, a failure is returned")
+			}
+		} else if rs == nil {
 			c.Fail(rule, "validateSchema|interface-loop", r.Pos(fd.Pos()), "no loop over data.Interfaces")
 		} else {
 			d := newDT(info)
@@ -581,4 +667,27 @@ func ruleCacheKey(c *Ctx, r *Repo, rule string) {
 		}
 	}
 	c.Check(missing == "", rule, "getTemplate|cache-key", r.Pos(pos), "cache key covers every constructor argument: "+storeKey, fmt.Sprintf("the remote-template cache entry is built from %v but keyed by %s (%s is not part of the key): two files that agree on the key and differ in that value share whichever entry was created first, and files are rendered in map order, so the run is not deterministic", ctorArgs, storeKey, missing))
+}
+
+func enumOnce(info *types.Info, fd *ast.FuncDecl) []*dtPath {
+	paths, _ := enumerateFunc(info, fd)
+	return paths
+}
+
+// validateNilTolerant: validateSchema returns nil straight away for a nil schema (without touching it).
+func validateNilTolerant(ip *packages.Package) bool {
+	fd := FuncDecl(ip, "validateSchema")
+	if fd == nil {
+		return false
+	}
+	n := 0
+	for _, p := range enumOnce(ip.TypesInfo, fd) {
+		if v, has := p.atom("ARG2 == nil"); has && v {
+			n++
+			if !(p.Exit == "return" && len(p.Ret) == 1 && p.Ret[0] == "nil" && len(p.CallsTo("VerifyJSONSchema")) == 0) {
+				return false
+			}
+		}
+	}
+	return n > 0
 }
